@@ -88,6 +88,12 @@ def sep_body(ctx, case):
         covm = np.asarray(quiet(turb.phase_covariance, r.copy(), r0, L0), dtype=np.float64)
         ctx.require(covm.shape == r.shape, "phase_covariance of a 2-D separation array: shape %s" % (covm.shape,))
         ctx.close(covm, vk.B(r, r0, L0), TOLB, "phase_covariance on a square non-symmetric 2-D separation array is element-wise", scale=B0, name="B matrix elementwise")
+        # the same matrix in another memory layout (Fortran order, a transposed view as cdist(Q, P).T gives it): element-wise too
+        for lay_name, lay in (("Fortran-ordered", np.asfortranarray(r)), ("transposed-view", np.ascontiguousarray(r.T).T)):
+            for fname, ff, arg3 in (("structure_function_vk", sc.structure_function_vk, (r0, L0)), ("phase_covariance", turb.phase_covariance, (r0, L0)), ("stf_vonKarman", kl.stf_vonKarman, (L0,))):
+                cval = np.asarray(quiet(ff, r.copy(), *arg3), dtype=np.float64)
+                lval = np.asarray(quiet(ff, lay.copy(order="K") if lay_name == "Fortran-ordered" else lay, *arg3), dtype=np.float64)
+                ctx.require(lval.shape == cval.shape and bool(np.array_equal(lval, cval, equal_nan=True)), "%s of a %s 2-D separation array differs from the C-ordered array with the same elements" % (fname, lay_name))
         dm = np.asarray(quiet(sc.structure_function_vk, r.copy(), r0, L0), dtype=np.float64)
         ctx.close(dm, np.asarray(quiet(sc.structure_function_vk, r.ravel().copy(), r0, L0), dtype=np.float64).reshape(r.shape), 1e-15, "structure_function_vk on a 2-D array is element-wise", scale=float(np.max(np.abs(dm))) or 1.0, name="D matrix elementwise")
         r = r.ravel()
